@@ -9,7 +9,9 @@ C08 as an executable predicate over the observed outcome of every attempt of a h
     holds exactly one listening descriptor per port of it (as a fresh process would);
   * a failed attempt (load, reload or validation) changes nothing observable: same listening
     descriptors, same event hooks, same answers from the running sites;
-  * validation never touches listeners or sites; Stop closes every listener and keeps the hooks.
+  * validation never touches listeners or sites; Stop closes every listener and keeps the hooks;
+  * no attempt alters the process-wide directive table (`ValidDirectives`, the execution order of
+    the directives of every later load).
 -/
 namespace Casket.LoadSpec
 open Casket.Load
@@ -28,7 +30,7 @@ def markerAt (c : Cfg) (p : Nat) : String :=
 
 def fdsAt (c : Cfg) (p : Nat) : Nat := if c.ports.contains p then 1 else 0
 
-def Obs.fresh : Obs := { l1 := 0, l2 := 0, hooks := 0, s1 := "-", s2 := "-" }
+def Obs.fresh : Obs := { l1 := 0, l2 := 0, hooks := 0, dv := 0, s1 := "-", s2 := "-" }
 
 /-- the law of one step given the observation before it; `none` = satisfied.
 `res = none` stands for an attempt that did not finish within the watchdog time. -/
@@ -36,6 +38,8 @@ def stepLaw (busy : List Nat) (prev : Obs) (op : Op) (res : Option Res) (now : O
   match res with
   | none => some "timeout"
   | some r =>
+    -- no attempt, failed or not, may alter process-wide tables that later loads depend on (the directive order)
+    if now.dv != 0 then some "process-state-changed" else
     match op with
     | .load c =>
       if validFor busy c then
